@@ -594,7 +594,22 @@ def _nshape(n: int) -> str:
 CANCEL_NAMES = {"pre": "cancelled-before-construction", "post": "cancelled-before-run", "run": "cancelled-during-run-before-activation"}
 
 
+_LAST: dict = {"case": None, "res": None, "reuse": False}
+
+
 def run(case: dict) -> Result:
+    # The worker re-runs the object returned by shrink(); when shrink() returned the very same,
+    # unmodified case object it has just been run, so that (deterministic) result is handed back once.
+    if _LAST["reuse"] and _LAST["case"] is case:
+        _LAST["reuse"] = False
+        return _LAST["res"]
+    _LAST["reuse"] = False
+    res = _run(case)
+    _LAST["case"], _LAST["res"] = case, res
+    return res
+
+
+def _run(case: dict) -> Result:
     w = _world()
     res = Result()
     faults = case.get("faults", [])
@@ -1029,8 +1044,10 @@ def shrink(case: dict, still_fails) -> dict:
     # known finding is not worth minimising - the pinned witness of that finding is already minimal.
     known = _known_keys()
     if known:
-        keys = {v.key() for v in run(case).violations}
+        last = _LAST["res"] if _LAST["case"] is case else run(case)
+        keys = {v.key() for v in last.violations}
         if keys and keys <= known:
+            _LAST["case"], _LAST["res"], _LAST["reuse"] = case, last, True
             return case
     cur = copy.deepcopy(case)
 
@@ -1064,7 +1081,11 @@ FAMILIES = {
     "capacity": Family("capacity", gen_capacity, run, shrink=shrink, case_timeout=60.0),
     "mixed": Family("mixed", gen_mixed, run, shrink=shrink, case_timeout=60.0),
 }
+# Importing happysimulator costs ~5 s per worker process (no bytecode cache), far more than the cases of a
+# small shard; the runner honours an optional per-family shard size.
+for _name, _size in (("node", 200), ("net", 200), ("capacity", 400), ("mixed", 134)):
+    FAMILIES[_name].shard_size = _size
 BUDGET = {
-    "quick": {"node": 1000, "net": 700, "capacity": 1000, "mixed": 500},
+    "quick": {"node": 800, "net": 600, "capacity": 800, "mixed": 400},
     "thorough": {"node": 30000, "net": 20000, "capacity": 30000, "mixed": 15000},
 }
